@@ -55,11 +55,8 @@ class Run:
         self.inconclusive(rule, construct, f"the recognised spelling was not found ({what})")
         return False
 
-    def borrow(self, repo: Any, other: str, as_rule: str, select: Any, minimum: int = 1) -> int:
-        """Import rule instances decided by another property's checker because they are necessary conditions of
-        this property too (the violating construct breaks both).  ``select(record) -> bool`` picks the instances
-        (obligations and inconclusives) by their rule / key; they are re-labelled ``as_rule`` so that findings and
-        evidence are keyed under this property.  The other checker runs on the same tree in this process."""
+    def lender(self, repo: Any, other: str) -> "Run":
+        """The run of another property's checker on the same tree (computed once per process)."""
         import importlib
 
         cache = getattr(repo, "_borrow_cache", None)
@@ -70,10 +67,20 @@ class Run:
             sub = Run(other, self.tier, self.root)
             importlib.import_module(f"sa.props.{other.lower()}").check(repo, sub)
             cache[other] = sub
+        return sub
+
+    def borrow(self, repo: Any, other: str, as_rule: str, select: Any, minimum: int = 1, transform: Any = None) -> int:
+        """Import rule instances decided by another property's checker because they are necessary conditions of
+        this property too (the violating construct breaks both).  ``select(record) -> bool`` picks the instances
+        (obligations and inconclusives) by their rule / key; they are re-labelled ``as_rule`` so that findings and
+        evidence are keyed under this property.  The other checker runs on the same tree in this process."""
+        sub = self.lender(repo, other)
         n = 0
         for o in sub.obligations:
             if select(o):
                 rec = dict(o)
+                if transform is not None:
+                    rec = transform(rec)
                 rec["rule"] = as_rule
                 rec["key"] = f"{as_rule}|" + o["key"].split("|", 1)[1]
                 rec["what"] = o["what"] + f" [rule instance shared with {o['rule']}]"
